@@ -426,6 +426,9 @@ class C14(Prop):
             hooks = dict(zip(('before_signal', 'after_signal'), combo))
             for beh in ('obedient', 'stubborn'):
                 for cmd, sg in (('signal', 15), ('signal', 10), ('signal', 9),
+                                # (SIGSTOP cannot be caught either, but only
+                                # SIGKILL is exempt from the veto)
+                                ('signal', 19), ('signal', 18),
                                 ('kill', None), ('kill', 2), ('stop', None)):
                     cases.append({'c14': {'kind': 'signal', 'hooks': hooks,
                                           'beh': beh, 'np': 2, 'cmd': cmd,
